@@ -101,6 +101,7 @@ class GuardAnalysis:
         self.check_ids = {c["body"].id: c for c in checks if c["ok"]}
         self.gfields = guard_field_table(facts)
         self.safe = set()          # (body id, source)
+        self.always = set()        # (body id, param): every normal return is preceded by a guard check of that parameter
         self.sources = {}          # body id -> {source: set(locals)}
         self.uses = {}             # (body id, source) -> list of use dicts
         self.unchecked_carriers = {}   # (adt, field) -> construction sites not dominated by a check
@@ -156,11 +157,12 @@ class GuardAnalysis:
                 if self.is_check_call(c):
                     ci = self.check_ids[c.resolved]
                     if ci["guard_param"] == k + 1:
-                        checks.append(c)
+                        checks.append(("direct", c, k + 1))
                     continue
                 if is_view(c) and k == 0:
                     continue
                 uses.append(dict(kind="call", call=c, pos=k + 1, point=c.point))
+                checks.append(("via", c, k + 1))
         # aggregates holding the guard: closures and carrier structs
         for bi, blk in enumerate(b.blocks):
             if blk["cleanup"]:
@@ -187,10 +189,11 @@ class GuardAnalysis:
 
     def use_ok(self, b, u, checks, src):
         # dominated by a guard check of the same guard value
-        for c in checks:
+        for how, c, pos in checks:
+            if how == "via" and (c.resolved, pos) not in self.always:
+                continue
             if c.point != u["point"] and dominates(b, c.point, u["point"]):
-                # the check must be against this body's receiver when the body is a method (map param = arg 1)
-                return True, "dominated by guard check at %s" % c.span
+                return True, "dominated by guard check at %s%s" % (c.span, "" if how == "direct" else " (inside %s)" % strip_generics(c.resolved))
         if u["kind"] == "call":
             c = u["call"]
             tgt = c.resolved
@@ -250,6 +253,19 @@ class GuardAnalysis:
                 self.unchecked_carriers_backup = None
                 if all(self.use_ok(b, u, checks, src)[0] for u in uses):
                     self.safe.add((b.id, src))
+                    changed = True
+            # functions that always check before returning act as checks for their callers
+            for b, src in all_items:
+                if src[0] != "arg" or (b.id, src[1]) in self.always:
+                    continue
+                uses, checks = self.uses[(b.id, src)]
+                cps = {c.point for how, c, pos in checks if how == "direct" or (c.resolved, pos) in self.always}
+                if not cps:
+                    continue
+                from .analysis import return_points
+                r = reach(b, [entry(b)], avoid=cps)
+                if not any(rp in r for rp in return_points(b)):
+                    self.always.add((b.id, src[1]))
                     changed = True
         # recompute carrier table once, after the fixpoint (constructions not dominated by a check)
         self.unchecked_carriers = {}
@@ -340,7 +356,7 @@ def run(ctx, facts):
                          "%s (%d unchecked use(s) in all); no guard check dominates it" % (why, len(bad)))
             else:
                 ctx.inst("G1", b, "guard parameter %d" % src[1], b.span, True,
-                         "%d use(s), %d check(s): all checked or delegated to safe functions" % (len(uses), len(chk)))
+                         "%d use(s), %d direct check(s): all checked or delegated to safe functions" % (len(uses), len([1 for h, c, p in chk if h == "direct"])))
     for i in ctx.instances:
         if i.rule == "G1" and not i.ok and i.fn in derived:
             i.detail += "; also reachable unchecked through: " + ", ".join(sorted(set(derived[i.fn])))
